@@ -201,13 +201,29 @@ func collectExprDeps(e Expr, locals map[string]bool, add func(string)) {
 }
 
 // collectBlockDeps extracts dependencies from a block statement.
+// collectBlockDeps collects the references of a block. The block is a scope of
+// its own: names it declares hide module-scope declarations only inside it.
 func collectBlockDeps(block *BlockStmt, locals map[string]bool, add func(string)) {
 	if block == nil {
 		return
 	}
-	for _, s := range block.Statements {
-		collectStmtDeps(s, locals, add)
+	collectScopedDeps(block.Statements, cloneLocals(locals), add)
+}
+
+// collectScopedDeps collects the references of a statement list into the given
+// (already private) scope.
+func collectScopedDeps(stmts []Stmt, scope map[string]bool, add func(string)) {
+	for _, s := range stmts {
+		collectStmtDeps(s, scope, add)
 	}
+}
+
+func cloneLocals(locals map[string]bool) map[string]bool {
+	c := make(map[string]bool, len(locals)+4)
+	for k, v := range locals {
+		c[k] = v
+	}
+	return c
 }
 
 // collectStmtDeps extracts identifier references from a statement.
@@ -244,22 +260,28 @@ func collectStmtDeps(s Stmt, locals map[string]bool, add func(string)) {
 	case *BlockStmt:
 		collectBlockDeps(s, locals, add)
 	case *ForStmt:
+		// the initialiser's variable is in scope for the whole statement only
+		forScope := cloneLocals(locals)
 		if s.Init != nil {
-			collectStmtDeps(s.Init, locals, add)
+			collectStmtDeps(s.Init, forScope, add)
 		}
 		if s.Condition != nil {
-			collectExprDeps(s.Condition, locals, add)
+			collectExprDeps(s.Condition, forScope, add)
 		}
 		if s.Update != nil {
-			collectStmtDeps(s.Update, locals, add)
+			collectStmtDeps(s.Update, forScope, add)
 		}
-		collectBlockDeps(s.Body, locals, add)
+		collectBlockDeps(s.Body, forScope, add)
 	case *WhileStmt:
 		collectExprDeps(s.Condition, locals, add)
 		collectBlockDeps(s.Body, locals, add)
 	case *LoopStmt:
-		collectBlockDeps(s.Body, locals, add)
-		collectBlockDeps(s.Continuing, locals, add)
+		// the continuing block sees the declarations of the loop body
+		loopScope := cloneLocals(locals)
+		if s.Body != nil {
+			collectScopedDeps(s.Body.Statements, loopScope, add)
+		}
+		collectBlockDeps(s.Continuing, loopScope, add)
 	case *SwitchStmt:
 		collectExprDeps(s.Selector, locals, add)
 		for _, c := range s.Cases {
